@@ -381,35 +381,45 @@ func (m *Model) bfs(r *ev.Report, v int, withMul bool) (int, int, int) {
 	transitions, depth := 0, 0
 
 	for len(frontier) > 0 {
-		succ := make([][]State, len(frontier))
-
-		r.ParFor(len(frontier), func(_, fi int) {
-			st := frontier[fi]
-			local := make([]State, 0, len(ops))
-
-			for _, o := range ops {
-				ns, key, detail := m.Apply(v, st, o)
-				if key != "" {
-					r.Violation(key, "reachable: "+detail, Case{"op": "history", "q": fmt.Sprint(m.Q), "vars": fmt.Sprint(v), "state": m.StateString(v, st), "step": o.String()})
-					continue
-				}
-
-				local = append(local, ns)
-			}
-
-			succ[fi] = local
-		})
-
 		var next []State
 
-		for _, l := range succ {
-			transitions += len(ops)
+		const chunk = 8192
 
-			for _, ns := range l {
-				k, ok := m.packState(v, ns)
-				if ok && !seen[k] {
-					seen[k] = true
-					next = append(next, ns)
+		for lo := 0; lo < len(frontier); lo += chunk {
+			hi := lo + chunk
+			if hi > len(frontier) {
+				hi = len(frontier)
+			}
+
+			part := frontier[lo:hi]
+			succ := make([][]State, len(part))
+
+			r.ParFor(len(part), func(_, fi int) {
+				st := part[fi]
+				local := make([]State, 0, len(ops))
+
+				for _, o := range ops {
+					ns, key, detail := m.Apply(v, st, o)
+					if key != "" {
+						r.Violation(key, "reachable: "+detail, Case{"op": "history", "q": fmt.Sprint(m.Q), "vars": fmt.Sprint(v), "state": m.StateString(v, st), "step": o.String()})
+						continue
+					}
+
+					local = append(local, ns)
+				}
+
+				succ[fi] = local
+			})
+
+			for _, l := range succ {
+				transitions += len(ops)
+
+				for _, ns := range l {
+					k, ok := m.packState(v, ns)
+					if ok && !seen[k] {
+						seen[k] = true
+						next = append(next, ns)
+					}
 				}
 			}
 		}
